@@ -1,5 +1,5 @@
 (* C08 - proofs about the table slot assignment model (model/C08Table.v). *)
-From Coq Require Import ZArith List Bool Lia.
+From Coq Require Import ZArith List Bool Lia FinFun.
 Require Import WV.model.C08Table.
 Import ListNotations.
 Open Scope Z_scope.
@@ -70,6 +70,8 @@ Proof.
       * rewrite (IH k j). split; (intros [H|[H1 [H2 H3]]]; [tauto|right; repeat split; try lia; exact H3]).
 Qed.
 
+Local Arguments first_free : simpl never.
+
 (* ------------------------------------------------------------------ one row *)
 Fixpoint chain (S : Z -> Prop) (from : Z) (outs : list cellout) : Prop :=
   match outs with
@@ -117,14 +119,15 @@ Proof.
     assert (Hocc1 : In z (nth j occ1 []) <->
                     In z (nth j occn []) \/ (Z.of_nat j + 1 < r' /\ g <= z < g + c)).
     { unfold occ1. destruct (r =? 1) eqn:E1.
-      - apply Z.eqb_eq in E1. assert (r' = 1) by (unfold r'; subst r; reflexivity). split; [tauto|]. intros [H|[H _]]; [exact H|lia].
-      - rewrite mark_nth, zrange_In. split; (intros [H|H]; [tauto|right]).
-        + destruct H as [H1 [H2 H3]]. split; [lia|exact H3].
-        + destruct H as [H1 H2]. unfold maxr in Hr'. repeat split; try lia. }
+      - apply Z.eqb_eq in E1. assert (r' = 1) by (unfold r'; subst r; reflexivity). split; [tauto|].
+        intros [HH|[HH _]]; [exact HH|lia].
+      - rewrite mark_nth, zrange_In. split; (intros [HH|HH]; [tauto|right]).
+        + destruct HH as [H1 [H2 H3]]. split; [lia|exact H3].
+        + destruct HH as [H1 H2]. unfold maxr in Hr'. repeat split; try lia. }
     rewrite Hocc1. split.
-    + intros [[H|H]|[c0 [Hin H]]]; [tauto| |right; exists c0; split; [right; exact Hin|exact H]].
-      right. exists (g, c, r'). split; [left; reflexivity|exact H].
-    + intros [H|[c0 [[<-|Hin] H]]]; [tauto| |right; exists c0; tauto]. left. right. exact H.
+    + intros [[HH|HH]|[c0 [Hin HH]]]; [tauto| |right; exists c0; split; [right; exact Hin|exact HH]].
+      right. exists (g, c, r'). split; [left; reflexivity|exact HH].
+    + intros [HH|[c0 [[<-|Hin] HH]]]; [tauto| |right; exists c0; tauto]. left. right. exact HH.
 Qed.
 
 Lemma do_row_total o occn x gw cells :
@@ -235,8 +238,8 @@ Proof.
         split.
         -- intros [[H|[c0 [Hin H]]]|H]; [tauto| |tauto]. right. left. exists c0. split; [exact Hin|lia].
         -- intros [H|[[c0 [Hin H]]|H]]; [tauto| |tauto]. left. right. exists c0. split; [exact Hin|lia].
-    + simpl. split; [|exact B]. rewrite Hlen in R2. replace (Z.of_nat (S (length rest))) with (Z.of_nat (length rest) + 1) by lia.
-      exact R2.
+    + cbn [spans_ok]. split; [|exact B]. rewrite Hlen in R2.
+      change (length (row :: rest)) with (S (length rest)). rewrite Nat2Z.inj_succ. unfold Z.succ. exact R2.
     + split; [lia|]. intros y k c Hc. destruct y as [|y].
       * rewrite cell_at_0 in Hc. apply nth_error_In in Hc. rewrite Forall_forall in R5'. specialize (R5' c Hc). lia.
       * rewrite cell_at_S in Hc. eapply C'. exact Hc.
@@ -246,7 +249,7 @@ Proof.
     + intros y k c Hc. destruct y as [|y].
       * rewrite cell_at_0 in Hc. apply nth_error_In in Hc. rewrite Forall_forall in R6. specialize (R6 c Hc). simpl length. lia.
       * rewrite cell_at_S in Hc. specialize (E y k c Hc). simpl length. lia.
-  Unshelve. eapply Forall_impl; [|exact R6]. intros; tauto.
+  Unshelve. eapply Forall_impl; [|exact R6]. intros a Ha. destruct Ha as [Ha _]. exact Ha.
 Qed.
 
 Lemma do_rows_total occ gw rows :
